@@ -509,18 +509,20 @@ Definition l0_resource_table : list (N * option N) :=
 (* the escape set a regex printer needs: every Safari metacharacter except the wildcard '*',
    which the converter rewrites instead of escaping *)
 Definition plain (s : str) : Prop := ~ In STAR s /\ ~ In CARET s.
-(* plain pattern semantics of the crate's matcher (C02): substring *)
-Definition substring_match (p url : str) : Prop := exists a b, url = a ++ p ++ b.
-(* hostname anchoring (C02): [h] occurs in the host at its start or right after a dot that ends
-   a non-empty label prefix *)
-Definition host_anchored (h host : str) : Prop :=
-  exists a b, host = a ++ h ++ b /\
-              (a = [] \/ exists a', a' <> [] /\ a = a' ++ [DOT]).
-(* url = scheme "://" host rest, the shape of every URL the request parser accepts without
-   userinfo *)
-Definition url_shape (url scheme host rest : str) : Prop :=
-  url = scheme ++ COLON :: SLASH :: SLASH :: host ++ rest /\
-  scheme <> [] /\ ~ In COLON scheme /\ ~ In SLASH host.
+(* plain pattern semantics of the crate's matcher (C02): the pattern occurs in the URL, at its
+   start when left-anchored (|p), at its end when right-anchored (p|) *)
+Definition plain_match (la ra : bool) (p url : str) : Prop :=
+  exists a b, url = a ++ p ++ b /\ (la = true -> a = []) /\ (ra = true -> b = []).
+(* hostname-anchored semantics (C02) for ||h followed by the plain path p: the URL is
+   scheme "://" a h p rest where a is empty or a non-empty run of labels ending in a dot, the
+   host part contains no '/', and nothing follows when right-anchored.  URLs with credentials
+   (user:pw@host) are not of this shape: see the known finding C20_userinfo_url. *)
+Definition host_path_match (ra : bool) (h p url : str) : Prop :=
+  exists scheme a rest,
+    url = scheme ++ COLON :: SLASH :: SLASH :: a ++ h ++ p ++ rest /\
+    scheme <> [] /\ ~ In COLON scheme /\ ~ In SLASH a /\
+    (a = [] \/ exists a', a' <> [] /\ a = a' ++ [DOT]) /\
+    (ra = true -> rest = []).
 
 (* well-formed ASTs: a literal is never the raw wildcard character (the printer does not escape
    it: the converter rewrites '*' before printing), groups are not empty, the text is not empty *)
@@ -534,6 +536,18 @@ Definition item_wf (i : item) : bool :=
   end.
 Definition regex_wf (r : regex) : bool :=
   forallb item_wf (rx_body r) && negb (is_nil (print_regex r)).
+
+(* parser invariants used as hypotheses (checked by the harness on every parsed rule) *)
+Definition host_ok (nf : netf) : bool :=           (* the hostname never contains the wildcard *)
+  match nf_hostname nf with Some h => forallb lit_ok h | None => true end.
+Definition dollar_ok (nf : netf) : bool :=         (* a domain option implies a '$' in the raw line *)
+  negb (nf_has_dom nf || nf_has_notdom nf) ||
+  match nf_raw nf with Some raw => memN DOLLAR raw | None => true end.
+Definition cos_ok (cf : cosf) : bool :=            (* cosmetic raw lines contain '#', selectors are not empty *)
+  match cf_raw cf with Some raw => memN SHARP raw | None => true end && negb (N.eqb (cf_nsel cf) 0).
+(* AbstractNetworkFilter::parse looks for the options after the LAST '$' *)
+Definition parser_options (line : str) : option str :=
+  match rfind_byte DOLLAR line with Some i => Some (drop (S i) line) | None => None end.
 
 (* carve-out classes (known findings) *)
 (* scheme information lost: `|ws://$~websocket` leaves none of the three scheme bits *)
